@@ -80,6 +80,9 @@ static void ignore_block_of(const void *p)
         vs_ignore_range(base, size);
 }
 
+static bool g_idle[2];
+static int g_stuck = -1, g_stuck_got;
+
 static void setup(void)
 {
     simfd_reset();
@@ -87,6 +90,8 @@ static void setup(void)
     g_source_end = false;
     g_source_end_stamp = -1;
     g_sent = 0;
+    g_stuck = -1;
+    g_idle[0] = g_idle[1] = false;
     g_flushed_upto = 0;
     g_script_done = false;
     struct px_cfg cfg = {.pool = 0, .prepend = 0, .append = 0, .align = 0};
@@ -138,7 +143,9 @@ static bool loop_once(int t)
     if (n == 0) {
         if (vmock_alive(g_mgr[t]) == 0)
             return false;
+        g_idle[t] = true;
         vs_wait(loop_ready, g_mgr[t]);
+        g_idle[t] = false;
         return true;
     }
     vs_point(VS_K_LOOP, NULL);
@@ -158,6 +165,13 @@ static void loop_step(int t)
 {
     if (loop_ready(g_mgr[t]))
         loop_once(t);
+}
+
+/* the producer has nothing to run and the consumer sleeps on descriptors none of which is readable */
+static bool quiescent(void *arg)
+{
+    (void)arg;
+    return loop_ready(g_mgr[0]) || (g_idle[1] && !loop_ready(g_mgr[1]));
 }
 
 static void producer(void *arg)
@@ -199,6 +213,25 @@ static void producer(void *arg)
         case 'l': /* let the loop run one step mid-script */
             loop_step(0);
             break;
+        case 'w': { /* run the producer's loop until both sides are quiescent, then look at what arrived */
+            for (;;) {
+                if (loop_ready(g_mgr[0])) {
+                    loop_once(0);
+                    continue;
+                }
+                if (g_idle[1] && !loop_ready(g_mgr[1]))
+                    break;
+                vs_wait(quiescent, NULL);
+            }
+            int got = 0;
+            for (int i = 0; i < fx.nsrec; i++)
+                got += fx.srec[i].sink == 0 && fx.srec[i].kind == PXS_INPUT;
+            if (g_loop && got < g_sent - g_flushed_upto && g_stuck < 0) {
+                g_stuck = g_sent;
+                g_stuck_got = got;
+            }
+            break;
+        }
         case 'r':
             upipe_release(g_qsink);
             break;
@@ -247,6 +280,9 @@ static int check(int outcome, char *sig, char *msg)
         for (int i = 0; i < fx.nsrec; i++)
             printf("  sink #%d T%d kind=%d seq=%" PRId64 " flow=%d\n", fx.srec[i].stamp, fx.srec[i].thread, fx.srec[i].kind, fx.srec[i].seq, fx.srec[i].flow_id);
     }
+    if (g_stuck >= 0)
+        fail("queue:stuck:consumer-asleep-with-buffer-queued",
+             "both loops were idle (no descriptor readable) after %d buffer(s) were sent, yet only %d had reached the consumer", g_stuck, g_stuck_got);
     if (outcome == VS_DONE) {
         /* ---- what the consumer-side sink saw ---- */
         int expect_next = 0, cur_flow = -1, last_buf_stamp = -1;
